@@ -746,7 +746,10 @@ pub fn check_c11(seed: u64, i: usize) -> DefReport {
             let b = analyze::run_generate(&inl);
             rep.extra_count += 1;
             let about_subpattern = |m: &String| m.to_lowercase().contains("subpattern") || m.contains("UTF-8");
-            if b.outcome == Outcome::Accepted && !msgs.iter().any(about_subpattern) {
+            // a subpattern that is not a regex of its own (used or not) is a reason of its own, whatever the wording of the
+            // diagnostic: the rule only speaks when every subpattern source parses by itself (regex-syntax, own Unicode mode)
+            let subs_fine = refa::resolve_subpatterns(&def).map(|subs| subs.iter().all(|(_, text)| refa::parse_hir(text, true, false).is_ok())).unwrap_or(false);
+            if b.outcome == Outcome::Accepted && subs_fine && !msgs.iter().any(about_subpattern) {
                 rep.violations.push(violation("C11", "reference-form-rejected-expanded-form-accepted", &format!("rejected with (?&name) references ({:?}) although the same definition with every reference written out is accepted",
                     msgs.iter().map(|s| s.chars().take(160).collect::<String>()).collect::<Vec<_>>()), &def, None, None));
             }
